@@ -594,10 +594,10 @@ func (f vfC07Filter) sel(r *vfC07Rec, clients vfC07Clients) (sel int) {
 // ---- generators ----
 
 var (
-	vfC07Labels    = []string{"a", "b", "ads", "cdn", "www", "x1", "tracker", "cli", "laptop", "a-b", "_dmarc"}
+	vfC07Labels        = []string{"a", "b", "ads", "cdn", "www", "x1", "tracker", "cli", "laptop", "a-b", "_dmarc"}
 	vfC07EscapedLabels = []string{"a&b", "x<y", "q=1&r=2", "<b>"}
-	vfC07IDNLabels = []string{"пример", "bücher", "münchen", "例え"}
-	vfC07TLDs      = []string{"test", "example", "com", "org", "co.uk"}
+	vfC07IDNLabels     = []string{"пример", "bücher", "münchen", "例え"}
+	vfC07TLDs          = []string{"test", "example", "com", "org", "co.uk"}
 
 	vfC07IPs = []string{
 		"192.0.2.1", "192.0.2.17", "192.0.2.171", "198.51.100.23", "10.1.2.3", "127.0.0.1", "203.0.113.200",
